@@ -1,6 +1,7 @@
 package main
 
 import (
+	"encoding/json"
 	"fmt"
 	"path/filepath"
 	"strings"
@@ -281,7 +282,7 @@ var c14Causes = []string{model.FailNoTable, model.FailColCount, model.FailType, 
 	"update-" + model.FailSize, "update-" + model.FailType, "update-" + model.FailRange, "where-type", "create-length-out-of-range", "repeated-column", "create-name-too-long"}
 
 func checkC14(c *core.Ctx) []core.Floor {
-	c.Rule = "states from seeded histories (splits, tombstones); then failing INSERT/UPDATE/DELETE/CREATE TABLE statements for every cause the property names (plus column lists that name a column twice with a valid and an invalid value), with the invalid row at every position k of n-row INSERTs (n<=8) and UPDATEs whose k-th matching row is the one that overflows; full-database snapshot (SELECT * of all tables + catalog) before, immediately after, after flush+close+new process, and after crash+recovery of an image taken right after the failure; then 3 valid statements. Distinct = (history, failing statement); non-trivial = the failing row was not the first (k > 1) or the cause is not row-related."
+	c.Rule = "states from seeded histories (splits, tombstones); then failing INSERT/UPDATE/DELETE/CREATE TABLE statements for every cause the property names (plus column lists that name a column twice with a valid and an invalid value), with the invalid row at every position k of n-row INSERTs (n<=8) and UPDATEs whose k-th matching row is the one that overflows; full-database snapshot (SELECT * of all tables + catalog) before, immediately after, after flush+close+new process, and after crash+recovery of an image taken right after the failure; then 3 valid statements. A further third as many cases end with statements of unusual but legal shapes that the unchanged code ACCEPTS (a column named twice in CREATE TABLE, no columns, SET of one column twice, partial or repeated column lists, ...): whatever they do is not judged - unless they return an error, in which case the dump before, the dump after and the dump after close + reopen have to be identical. Distinct = (history, failing statement); non-trivial = the failing row was not the first (k > 1) or the cause is not row-related."
 	c.Assume = []string{"which error value is returned is not judged, only that one is", "row ids may have gaps after a refused row"}
 	drv := mustDriver(c, false)
 	n := 300
@@ -289,6 +290,7 @@ func checkC14(c *core.Ctx) []core.Floor {
 		n = 8000
 	}
 	core.ParallelFor(n, c.Workers, func(i int) { runC14(c, drv, i) })
+	core.ParallelFor(n/3, c.Workers, func(i int) { runC14Maybe(c, drv, i) })
 	fl := []core.Floor{{Key: "failing_statements", Min: 300}, {Key: "stage_clean_restart_ok", Min: 50}, {Key: "stage_crash_ok", Min: 100}}
 	for _, cs := range c14Causes {
 		fl = append(fl, core.Floor{Key: "cause_" + cs, Min: 5})
@@ -594,4 +596,98 @@ func runC14(c *core.Ctx, drv string, idx int) {
 		}
 		return o
 	}()})
+}
+
+// runC14Maybe: statements that the unchanged code accepts although they are
+// odd. The property speaks about statements that RETURN AN ERROR, whatever
+// the reason: should one of these be refused (today or after a change), it
+// has to leave nothing behind.
+func runC14Maybe(c *core.Ctx, drv string, idx int) {
+	dir := c.CaseDir("c14m")
+	defer removeAll(dir)
+	r := core.NewRand(core.SubSeed(c.Seed, "C14M", idx))
+	h := gen.NewHist(r, false)
+	h.MaxTables = r.Range(1, 3)
+	if idx%4 == 3 {
+		h.MaxTables = r.Range(7, 9)
+	}
+	var s script
+	s.cfg(true, 0)
+	s.k("init")
+	s.sql("CREATE DATABASE d1")
+	s.sql("USE d1")
+	for i, np := 0, r.Range(8, 40); i < np; i++ {
+		s.stmt(h.Next())
+	}
+	t := h.DB.Tables[r.Intn(len(h.DB.Tables))]
+	fresh := fmt.Sprintf("odd%d", idx)
+	cands := []string{
+		"CREATE TABLE " + fresh + " (a INT, a INT)",
+		"CREATE TABLE " + fresh + " (a INT, b VARCHAR(10), a BOOLEAN)",
+		"CREATE TABLE " + fresh + " (a INT, b INT, c INT, d INT, e INT, f INT, g INT, h INT, a BIGINT)",
+		"CREATE TABLE " + fresh + " ()",
+		"CREATE TABLE " + fresh + " (a VARCHAR(0))",
+		"CREATE TABLE " + strings.ToUpper(t.Name) + " (a INT)",
+		fmt.Sprintf("UPDATE %s SET g = 1, g = 2", t.Name),
+		fmt.Sprintf("INSERT INTO %s (k) VALUES (77777)", t.Name),
+		fmt.Sprintf("INSERT INTO %s (k, g, g) VALUES (77778, 1, 2), (77779, 3, 4)", t.Name),
+		fmt.Sprintf("INSERT INTO %s (g, k) VALUES (5, 77780)", t.Name),
+		fmt.Sprintf("DELETE FROM %s WHERE k = 1 AND k = 2", t.Name),
+		fmt.Sprintf("UPDATE %s SET g = 6 WHERE k = -5", t.Name),
+		fmt.Sprintf("INSERT INTO %s (k, g) VALUES (77781, 1), (77782, 2), (77783, 3), (77784, 4), (77785, 5), (77786, 6), (77787, 7), (77788, 8), (77789, 9), (77790, 10)", t.Name),
+	}
+	pre := s.k("dump")
+	q := cands[r.Intn(len(cands))]
+	st := s.sql(q)
+	post := s.k("dump")
+	s.k("flush")
+	s.k("close")
+	s.k("session")
+	s.sql("USE d1")
+	re := s.k("dump")
+	s.k("close")
+	out := core.RunScript(drv, dir, s.ops, 120*time.Second)
+	if out.Died || len(out.Res) != len(s.ops) {
+		if out.LastBeg == st && !out.TimedOut {
+			c.Violation("C14:odd-statement:process-died", "process died in: "+q+": "+core.FatalTail(out.Stderr), map[string]interface{}{"case": idx, "statement": q})
+			return
+		}
+		c.Inconclusive("phase1", "C14 odd-statement case did not finish")
+		return
+	}
+	for k := 0; k < st; k++ {
+		if out.Res[k].Failed() {
+			c.Inconclusive("phase1", "history statement failed: "+out.Res[k].Err+out.Res[k].Panic)
+			return
+		}
+	}
+	c.Count("odd_statements", 1)
+	res := out.Res[st]
+	if res.Panic != "" {
+		c.Violation("C14:odd-statement:panic:"+res.Frame, "statement panicked: "+res.Panic+": "+q, map[string]interface{}{"case": idx, "statement": q})
+		return
+	}
+	if res.Err == "" {
+		c.Count("odd_statements_accepted", 1)
+		return
+	}
+	c.Count("odd_statements_refused", 1)
+	key := func(k int) string {
+		if out.Res[k].Failed() {
+			return "dump failed: " + out.Res[k].Err + out.Res[k].Panic
+		}
+		b, _ := json.Marshal(out.Res[k].Tables)
+		return string(b)
+	}
+	kind := strings.ToLower(strings.Fields(q)[0])
+	replay := map[string]interface{}{"case": idx, "statement": q, "error_returned": res.Err}
+	if key(pre) != key(post) {
+		c.Violation("C14:"+kind+":refused-odd-statement:immediately", fmt.Sprintf("%s returned %q, and the database is not what it was before it", clip(q, 200), res.Err), replay)
+		return
+	}
+	if key(pre) != key(re) {
+		c.Violation("C14:"+kind+":refused-odd-statement:after-restart", fmt.Sprintf("%s returned %q; after flush, close and reopen the database is not what it was before it", clip(q, 200), res.Err), replay)
+		return
+	}
+	c.Count("odd_statements_refused_and_nothing_changed", 1)
 }
